@@ -15,6 +15,8 @@ CONSTANTS
   CompileMode = "stated"
   Inners <- InnersQuick
   ScopeMode = "stated"
+  Doors <- DoorsApi
+  HookMode = "stated"
 INIT InitNested
 NEXT Next
 INVARIANTS KeepInv BalanceSheetInv IncomeInv EquityInv TxBalanceInv LayoutInv FilterInv CompileInv SortedInv ExpectInv ScopeInv
